@@ -39,7 +39,7 @@ def step(prop, src, tag, N, NM, LT, OP, OBS, DUP=1, opnames=DIR_OPS, **kw):
 
 
 # ------------------------------------------------------------------------------------------------ C01
-EMPTY_AFTER = ["several", "observed pair is an edge"]  # reach marks that cannot be hit when the step leaves no edge
+EMPTY_AFTER = ["several", "observed pair is an edge", "descending"]  # reach marks that cannot be hit when the step leaves no edge
 
 
 def c01(tier):
@@ -155,6 +155,129 @@ PROPS = {
 }
 
 
+MG_OPS = {0: "addEdge", 1: "addMultiedge", 2: "addReciprocalMultiedge", 3: "removeEdge", 4: "removeMultiedge", 5: "setEdgeMultiplicity", 6: "removeSelfLoops",
+          7: "removeVertexFromEdgeList", 8: "clearEdges", 9: "ctor", 10: "resize", 11: "addReciprocalEdge", 12: "forceAddMultiedge", 13: "removeDuplicateEdges", 14: "anystate"}
+MG_OBS = {0: "core", 1: "neigh", 2: "degree", 3: "degrees", 4: "matrix", 6: "indeg", 7: "indegs"}
+
+
+def mg_step(prop, und, n, nm, op, o, wide=0, DUP=1, mmax=3, **kw):
+    defs = caps(n, nm, DUP)
+    defs.update({"UND": und, "OP": op, "OBS": o, "WIDE": wide, "MMAX": mmax})
+    ob = {"id": "%s/%s/n%d%s%s/%s/%s" % (prop, "umg" if und else "dmg", n, ("d%d" % DUP) if DUP > 1 else "", "wide" if wide else "", MG_OPS[op], MG_OBS[o]),
+          "src": "step_mg.cpp", "defs": defs, "bounds": graph_bounds(defs)}
+    ob.update(kw)
+    return ob
+
+
+def c04(tier):
+    obs = []
+    for und in (0, 1):
+        ops = [0, 1, 3, 4, 5, 6, 7, 8, 9, 10] + ([2, 11] if not und else [])
+        ns = (1, 2, 3) if tier == "quick" else (0, 1, 2, 3, 4)
+        for n in ns:
+            for op in ops:
+                if n == 0 and op not in (6, 8, 9, 10):
+                    continue
+                nm = n + 1 if op == 10 else n
+                for o in (0, 1):
+                    kw = {"optional_reach": [""]} if n < 3 else {"optional_reach": EMPTY_AFTER} if op in (8, 9) else {}
+                    obs.append(mg_step("C04", und, n, nm, op, o, mmax=3 if tier == "quick" or n == 4 else 7, **kw))
+            observers = (2, 3, 4) if und else (2, 3, 4, 6, 7)
+            for o in observers:
+                if n == 0:
+                    continue
+                obs.append(mg_step("C04", und, n, n, 14, o, mmax=3, **({"optional_reach": [""]} if n < 3 else {})))
+        # wide family: at most two pairs, full-width values
+        for op in (1, 4, 5, 7, 8) + ((2,) if not und else ()):
+            obs.append(mg_step("C04", und, 3 if tier == "thorough" else 2, 3 if tier == "thorough" else 2, op, 0, wide=1, optional_reach=[""]))
+    return obs
+
+
+WG_OPS = {0: "addEdge", 1: "setEdgeWeight", 3: "removeEdge", 4: "removeSelfLoops", 5: "removeVertexFromEdgeList", 6: "clearEdges", 7: "resize", 9: "ctor", 12: "forceAdd", 13: "removeDuplicateEdges", 14: "anystate"}
+WG_OBS = {0: "core", 1: "neigh", 2: "wmatrix", 4: "matrix", 6: "total"}
+
+
+def wg_step(prop, und, n, nm, op, o, DUP=1, **kw):
+    defs = caps(n, nm, DUP)
+    defs.update({"UND": und, "OP": op, "OBS": o})
+    defs.update(kw.pop("defs", {}))
+    sub = ""
+    if "FIXA" in defs:
+        sub = "-a%d%s" % (defs["FIXA"], ("b%d" % defs["FIXB"]) if op in (0, 1, 3, 12) else "")
+    if "POSW" in defs:
+        sub += "-posw%d" % defs["POSW"]
+    ob = {"id": "%s/%s/n%d%s/%s/%s%s" % (prop, "uwg" if und else "dwg", n, ("d%d" % DUP) if DUP > 1 else "", WG_OPS[op], WG_OBS[o], sub),
+          "src": "step_wg.cpp", "defs": defs, "bounds": graph_bounds(defs) , "cbmc": []}
+    ob.update(kw)
+    return ob
+
+
+def wg_total(prop, und, n, op, DUP=1, posw_variants=(1, 4)):
+    """total-weight obligations: fixed vertex arguments per sub-query; bulk removals additionally use position-determined weights"""
+    obs = []
+    if op in (0, 1, 3, 12):
+        for a in range(n):
+            for b in range(n):
+                obs.append(wg_step(prop, und, n, n, op, 6, DUP=DUP, defs={"FIXA": a, "FIXB": b}, optional_reach=[""]))
+    elif op in (5,):
+        for a in range(n):
+            for pw in posw_variants:
+                obs.append(wg_step(prop, und, n, n, op, 6, DUP=DUP, defs={"FIXA": a, "FIXB": 0, "POSW": pw}, optional_reach=[""]))
+    elif op in (4, 6, 13):
+        for pw in posw_variants:
+            obs.append(wg_step(prop, und, n, n, op, 6, DUP=DUP, defs={"FIXA": 0, "FIXB": 0, "POSW": pw}, optional_reach=[""]))
+    elif op in (7, 9):
+        obs.append(wg_step(prop, und, n, n + 1 if op == 7 else n, op, 6, DUP=DUP, optional_reach=[""]))
+    return obs
+
+
+def c05(tier):
+    obs = []
+    for und in (0, 1):
+        ns = (1, 2, 3) if tier == "quick" else (0, 1, 2, 3, 4)
+        for n in ns:
+            for op in (0, 1, 3, 4, 5, 6, 7, 9):
+                if n == 0 and op not in (4, 6, 9, 7):
+                    continue
+                nm = n + 1 if op == 7 else n
+                for o in (0, 1):
+                    kw = {"optional_reach": [""]} if n < 3 else {"optional_reach": EMPTY_AFTER + ["descending"]} if op in (6, 9) else {}
+                    if n == 4:
+                        kw.update(timeout=3000)
+                    obs.append(wg_step("C05", und, n, nm, op, o, **kw))
+                if n >= 2 and (tier == "thorough" or n == 3 or op in (6, 7, 9)):
+                    obs.extend(wg_total("C05", und, n, op))
+            for o in (2, 4):
+                if n == 0:
+                    continue
+                obs.append(wg_step("C05", und, n, n, 14, o, **({"optional_reach": [""]} if n < 3 else {})))
+    return obs
+
+
+def c16_wg(tier):
+    obs = []
+    for und in (0, 1):
+        n, dup = 2, 2
+        for op in (12, 13):
+            for o in (0, 1):
+                obs.append(wg_step("C16", und, n, n, op, o, DUP=dup))
+            obs.extend(wg_total("C16", und, n, op, DUP=dup))
+        obs.append(wg_step("C16", und, n, n, 14, 2, DUP=dup, optional_reach=[""]))
+    return obs
+
+
+def c16_mg(tier):
+    obs = []
+    for und in (0, 1):
+        n, dup = 2, 2
+        for op in (12, 13):
+            for o in (0, 1):
+                obs.append(mg_step("C16", und, n, n, op, o, DUP=dup))
+        for o in ((2, 4) if und else (2, 4, 6)):
+            obs.append(mg_step("C16", und, n, n, 14, o, DUP=dup, optional_reach=[""]))
+    return obs
+
+
 PROPS["C02"] = {"gen": c02,
     "bounds": {"quick": "undirected graphs of 0..3 vertices (NoLabel, int), 3 vertices (other label types); every symmetric state, every neighbour order, either orientation of each call",
                "thorough": "0..4 vertices (NoLabel, int), 2..3 vertices (other label types)"},
@@ -167,7 +290,19 @@ PROPS["C03"] = {"gen": c03,
     "outside": "setEdgeLabel(force=true); graphs with more vertices than the bound",
     "explanation": "The step harnesses of C01/C02 with the label-store clauses of the representation invariant asserted on the post-state (keys = edge set) and the label observers (getEdgeLabel throwing / non-throwing, hasEdge(i,j,l)); plus remove-by-each-removal then re-add.",
     "assumptions": ["pre-state: label store has an entry exactly for the existing edges"]}
-PROPS["C16"] = {"gen": c16_simple,
+PROPS["C04"] = {"gen": c04,
+    "bounds": {"quick": "DirectedMultigraph and UndirectedMultigraph on 1..3 vertices; dense family: every pair may be present, multiplicities and arguments 0..3; wide family: <=2 pairs present on 2 vertices, multiplicities/arguments up to 2^30",
+               "thorough": "0..4 vertices; dense multiplicities 0..7 (0..3 at 4 vertices); wide family on 3 vertices"},
+    "outside": "multiplicities between the dense bound and 'wide' on graphs with three or more edges; unsigned overflow of EdgeMultiplicity sums; force=true (C16)",
+    "explanation": "Inductive step on the multiplicity matrix; totals are specified incrementally (pre-state total +/- the operation's delta).",
+    "assumptions": ["pre-state satisfies RI_multi: duplicate-free lists, multiplicity store keys = edge set, stored multiplicities >= 1, totalEdgeNumber = sum of multiplicities"]}
+PROPS["C05"] = {"gen": c05,
+    "bounds": {"quick": "DirectedWeightedGraph and UndirectedWeightedGraph on 1..3 vertices; every weight (pre-state and argument) one of 8 dyadic table values {0, .5, 1, 1.5, 2, -1, -.25, 3}",
+               "thorough": "0..4 vertices"},
+    "outside": "weights outside the table; the rounding-error clause of the property (inexact sums); force=true (C16); addReciprocalEdge. Total-weight obligations: the pre-state total is an arbitrary multiple of 1/4 in [-1000, 261144) for addEdge/setEdgeWeight/removeEdge (vertex arguments fixed per sub-query, all pairs); for removeSelfLoops/removeVertexFromEdgeList/clearEdges/removeDuplicateEdges the weights are determined by position (two assignments) and the pre-state total is one of four constants - every edge set and neighbour order remains symbolic",
+    "explanation": "Inductive step; the expected total is pre-state total +/- the operation's delta, exact in long double for the table weights.",
+    "assumptions": ["pre-state satisfies RI_weighted: weight store keys = edge set, totalWeight = exact sum of stored weights"]}
+PROPS["C16"] = {"gen": lambda tier: c16_simple(tier) + c16_mg(tier) + c16_wg(tier),
     "bounds": {"quick": "2 vertices, up to 2 copies per pair", "thorough": "2 vertices with up to 3 copies, 3 vertices with up to 2 copies"},
     "outside": "more copies / vertices than the bound",
     "explanation": "Step harnesses with duplicate copies allowed in the pre-state (RI_dup): forced insertion, removeEdge (all copies), removeDuplicateEdges; observers count per copy.",
